@@ -28,6 +28,27 @@ CHECKS = {
         note="Trusts httpx's incremental text/line decoders as installed; reference oracle restricted to payloads without exotic str.splitlines() separators and without leading whitespace; exhaustive only for streams <= 13 bytes.",
         design="§5 C18",
     ),
+    "C02": dict(
+        category="exploration",
+        technique="bounded exhaustive enumeration of all small schema graphs (9 edge kinds incl. allOf with cross-member required; N=2 with <=2 edges, N=3 with <=1 edge; all declaration orders; 3 name profiles = 1 068 486 documents) through load_ir_from_spec, compared with an independent reference resolver; known-failing cyclic graphs identified exactly by a committed bitmap; Hypothesis specs through generate_client for the emitted dataclasses",
+        text="Every enumerated graph is loaded and each named schema's property key set, required set and coarse property kinds are "
+             "compared with a ~40-line reference resolver. The strata are complete (exhaustive:true); 777 520 graphs - all with a "
+             "reference cycle other than a direct/array self-loop - fail on the pinned tree and are listed bit-exactly in "
+             "known/C02_bitmap.json, so any graph that starts failing (or any acyclic failure) is reported. Part (b) checks emitted "
+             "dataclasses (one model per schema, one field per property bound to the original key, required <=> no default).",
+        note="Small scope (N<=3); coarse kinds; the N=3/<=2-edge stratum is only sampled in thorough and attributed by signature (cyclic vs. acyclic) rather than by bitmap.",
+        design="§5 C02",
+    ),
+    "C08": dict(
+        category="exploration",
+        technique="same exhaustive graph strata + depth grid (4 chain kinds x PYOPENAPI_MAX_DEPTH in {5,10,50,150} x lengths around and far beyond the limit, differential against an unlimited run) + Hypothesis multigraphs; enter/exit wrapped from the harness; invariants on the tracker's rest state, terminal states, declared names, RecursionError and a deterministic termination budget",
+        text="For every document the cycle tracker must be at rest (depth 0, empty stack) after each top-level schema, every state "
+             "terminal, every declared name present, no RecursionError, and the number of enter events below 200*(size)^2. The depth "
+             "limit must cut exactly when the unlimited run's tracker depth exceeds it, and schemas parsed after a deep one must be "
+             "unaffected. 38 032 enumerated cyclic graphs leave a schema in state not_started (known finding, exact bitmap).",
+        note="Termination is an event budget, not a proof; surplus (clamped) exit events are not observable state and are not reported; interpreter recursion limit 1000.",
+        design="§5 C08",
+    ),
     "C16": dict(
         category="exploration",
         technique="Hypothesis-built dataclass type trees (make_dataclass, random bijective Meta key maps) x conforming JSON; round-trip laws both directions, differential against a fresh copy of the module (history independence), corrupted-leaf error reporting, serialiser on generated instance graphs (chain/self-loop/ring/diamond/random; two annotation styles) against an independent reference",
